@@ -467,6 +467,14 @@ theorem shuffle_a64_sa_repaired :
     let r1 := emitArgsAssignment { arch := .a64 } fr1 255 vals
     r2.1 = none ∧ judgeSA .a64 fr2 vals r2.2 = some true ∧ r1.1.isSome = true ∧ r1.2.length = 10 := by decide +kernel
 
+/-- fixes/C06-10: a requested SA register that is not an allocable GP register (here the stack pointer, `set_sa_reg_id(rsp)`) is refused
+    with `kInvalidPhysId`, like a destination register of an argument would be.  The unrepaired code accepted it, emitted
+    `mov rsp, rbp` and loaded the stack argument from `[rsp + 7]` with `kOk`. -/
+theorem shuffle_sa_sp_refused :
+    let fr : FrameIn := ⟨false, true, 5, -1, 8, [0, 0, 0, 0], [0xF038, 0, 0, 0]⟩
+    let vals := [(FuncValue.reg 40 6 7, none), (FuncValue.stack 40 8, some (FuncValue.reg 0 5 10))]
+    emitArgsAssignment { arch := .x64 } fr 4 vals = (some "InvalidPhysId", []) := by decide +kernel
+
 /-! non-vacuity: the 2-cycle `rdi -> rsi, rsi -> rdi` of two int64 arguments on x86-64 satisfies every hypothesis, the model returns
     kOk, and the initial context `init_work_data` builds for it satisfies the invariant `WF` -/
 def vals2 : List (FuncValue × Option FuncValue) :=
